@@ -277,6 +277,12 @@ func (s *Error) UnmarshalXML(d *xml.Decoder, start xml.StartElement) error {
 			if err = d.Skip(); err != nil {
 				return err
 			}
+		default:
+			// An application-specific condition: not ours to interpret, but its
+			// end element is not the end of the error either.
+			if err = d.Skip(); err != nil {
+				return err
+			}
 		}
 	}
 }
